@@ -9,7 +9,7 @@ RULE = ("AnkoCall holds the conversion table Conv(value kind, parameter type) an
         "total, and emits the demanded outcome. For each case a host function of that signature is built with reflect.MakeFunc, called from a script with script-made "
         "arguments, and the values it RECEIVES (and their dynamic types), the number of calls and the returned result are compared; scenario checks cover identity "
         "round trips of 20 Go values, exported fields through values and pointers, value/pointer-receiver and variadic methods, multiple results and callbacks "
-        "(arguments, result conversion, error surfacing). Two more tables of AnkoCall are enumerated by TLC and replayed: Results (0..3 results over 12 kinds incl. typed nil slice/map/pointer, nil and non-nil error, nil and non-nil interface: each arrives with its own dynamic type, several as a list) and MethodReachable (value- and pointer-receiver methods with 0..2 arguments on struct / named int / named map / named slice receivers and pointers to them). distinct_nontrivial = non-open table cases + scenarios.")
+        "(arguments, result conversion, error surfacing). Three more tables of AnkoCall are enumerated by TLC and replayed: Results (0..3 results over 12 kinds incl. typed nil slice/map/pointer, nil and non-nil error, nil and non-nil interface: each arrives with its own dynamic type, several as a list) MethodReachable (value- and pointer-receiver methods with 0..2 arguments on struct / named int / named map / named slice receivers and pointers to them) and the callback table CallbackSees / CallbackReturns (Go func types with 0..2 fixed and an optional variadic parameter receiving 0..3 values, script functions with 0..3 named and an optional variadic parameter, 0..2 declared results against 0..3 returned values: what the script function sees, what Go gets back, or an error of the enclosing call). distinct_nontrivial = non-open table cases + scenarios.")
 
 
 def run(ctx):
@@ -41,7 +41,7 @@ def run(ctx):
             vlib.violation(ctx, "%s: signature %s%s called as %r: expected %s, got %s" % (m["what"], m["case"]["c"]["fixed"], (" ..." + m["case"]["c"]["vtype"]) if m["case"]["c"]["vtype"] else "",
                                                                                            m["src"], m.get("expected"), m.get("got")), {"kind": "table", "case": m["case"], "src": m["src"], "what": m["what"]})
     # the results table and the method-reach table
-    for shard in ("results", "methods"):
+    for shard in ("results", "methods", "callbacks"):
         r = vlib.run_tlc(ctx, "MC_AnkoCall", "MC_AnkoCall_%s.cfg" % shard, workers=2, timeout=900, want_lines=False, xss="256m")
         vlib.tlc_ok(ctx, r, "MC_AnkoCall " + shard)
         res = os.path.join(r.dir, shard + ".json")
